@@ -6,10 +6,13 @@
   (src/state/packed.rs, after the `fix:` that derives the shell count from the cell heights), tied
   to the crate by the bit-exact `state` request family.  The theorem: if the check answers "no
   intersection" (i.e. the state reports a score), then NO two distinct lattice images of symmetry
-  copies test positive against each other — for every pair of copies `i, j` and every pair of
-  lattice vectors, however far away in cell indices.  What a negative pair test means
-  geometrically is C12 (discs: the open disc-unions are disjoint; polygons: no edge of one meets a
-  non-parallel edge of the other).
+  copies PROPERLY MEET — for every pair of copies `i, j` and every pair of lattice vectors, however
+  far away in cell indices.  `ProperlyMeets`: discs — some pair of discs tests positive (exactly: the
+  open discs share a point, C12.atom_iff); outlines — some edge of one and some edge of the other
+  really share a point and are not near-parallel (C12.NearParallel, the tolerance of the repaired
+  `Line2::intersects`).  With the tolerance the pair test itself may answer "yes" for a pair whose
+  ε-extended edges touch just outside the centre-distance prefilter, so "every pair test is false" is
+  not the theorem; what the test detects (C12.seg_complete / poly_complete_edges) is.
 -/
 import Lemmas.RealCarrier
 import Model.State
@@ -131,14 +134,55 @@ theorem relPositions_placed (s : Crystal ℝ)
       (Real.cos site.angle * Real.sin site.angle) * h2 +
       ((Real.cos site.angle) ^ 2 - (Real.sin site.angle) ^ 2) * h3
 
+/-! ### 0. properly meeting -/
+
+/-- two placed shapes properly meet: for disc shapes some pair of discs tests positive (exactly: the
+open discs share a point, `C12.atom_iff`); for outlines some edge of one and some edge of the other
+really share a point and are not near-parallel -/
+def ProperlyMeets : Shape ℝ → Shape ℝ → Prop
+  | .line xs, .line ys => ∃ a ∈ xs, ∃ b ∈ ys, ¬ C12.NearParallel a b ∧ C12.SharePoint a b
+  | .mol xs, .mol ys => ∃ a ∈ xs, ∃ b ∈ ys, a.intersects b = true
+  | _, _ => False
+
+/-- what properly meets is detected by the pair test (completeness) -/
+theorem properlyMeets_detected (s o : Shape ℝ) (h : ProperlyMeets s o) : s.intersects o = true := by
+  cases s <;> cases o <;> simp only [ProperlyMeets] at h
+  · exact C12.poly_complete_edges _ _ h
+  · exact (C12.mol_iff _ _).mpr h
+
+theorem properlyMeets_symm (s o : Shape ℝ) : ProperlyMeets s o ↔ ProperlyMeets o s := by
+  cases s <;> cases o <;> simp only [ProperlyMeets]
+  · constructor <;> rintro ⟨a, ha, b, hb, h1, h2⟩
+    · exact ⟨b, hb, a, ha, by rwa [nearParallel_symm], by rwa [sharePoint_symm]⟩
+    · exact ⟨b, hb, a, ha, by rwa [nearParallel_symm], by rwa [sharePoint_symm]⟩
+  · constructor <;> rintro ⟨a, ha, b, hb, h⟩
+    · exact ⟨b, hb, a, ha, by rwa [C12.atom_symm]⟩
+    · exact ⟨b, hb, a, ha, by rwa [C12.atom_symm]⟩
+
+/-- `ProperlyMeets` of two placed copies is unchanged when both placements are shifted by the same
+vector (every quantity in `NearParallel`, `SharePoint`, the disc test is a difference) -/
+theorem properlyMeets_shiftM (sh : Shape ℝ) (t u : Mat3 ℝ) (ht : C12.Affine t) (hu : C12.Affine u)
+    (wx wy : ℝ) :
+    ProperlyMeets (sh.transform (shiftM t wx wy)) (sh.transform (shiftM u wx wy)) ↔
+      ProperlyMeets (sh.transform t) (sh.transform u) := by
+  cases sh with
+  | line items =>
+    simp only [Shape.transform, ProperlyMeets, List.mem_map, exists_exists_and_eq_and,
+      line_transform_shift _ _ ht, line_transform_shift _ _ hu, nearParallel_shift,
+      sharePoint_shift]
+  | mol items =>
+    simp only [Shape.transform, ProperlyMeets, List.mem_map, exists_exists_and_eq_and,
+      atom_transform_shift _ _ ht, atom_transform_shift _ _ hu, atom_intersects_shift]
+  | lj items => simp only [Shape.transform, ProperlyMeets]
+
 /-! ### 1. the centre-distance prefilter is sound -/
 
 /-- every component of a placed shape stays within the enclosing radius of the placement's
-position, so two placed copies whose positions are further apart than `2R` cannot test positive -/
+position, so two placed copies whose positions are further apart than `2R` cannot properly meet -/
 theorem prefilter_sound (sh : Shape ℝ) (hs : ShapeOk sh) (t u : Mat3 ℝ)
     (ht : C12.Affine t ∧ C12.Orthogonal t) (hu : C12.Affine u ∧ C12.Orthogonal u)
     (hfar : (2 * sh.enclosingRadius) ^ 2 < dist2 t u) :
-    (sh.transform t).intersects (sh.transform u) = false := by
+    ¬ ProperlyMeets (sh.transform t) (sh.transform u) := by
   have hd : dist2 t u =
       (t.m02 - u.m02) * (t.m02 - u.m02) + (t.m12 - u.m12) * (t.m12 - u.m12) := by
     unfold dist2
@@ -146,8 +190,15 @@ theorem prefilter_sound (sh : Shape ℝ) (hs : ShapeOk sh) (t u : Mat3 ℝ)
     ring
   rw [hd] at hfar
   cases sh with
-  | line items => exact line_prefilter items hs t u ht.1 ht.2 hu.1 hu.2 hfar
-  | mol items => exact mol_prefilter items hs t u ht.1 ht.2 hu.1 hu.2 hfar
+  | line items =>
+    rintro ⟨a, ha, b, hb, _, h⟩
+    exact line_prefilter items hs t u ht.1 ht.2 hu.1 hu.2 hfar ⟨a, ha, b, hb, h⟩
+  | mol items =>
+    intro h
+    have h1 : ((Shape.mol items).transform t).intersects ((Shape.mol items).transform u) = true :=
+      (C12.mol_iff _ _).mpr h
+    rw [mol_prefilter items hs t u ht.1 ht.2 hu.1 hu.2 hfar] at h1
+    exact Bool.false_ne_true h1
   | lj items => exact hs.elim
 
 /-! ### 2. images beyond the searched shells are too far away -/
@@ -214,20 +265,21 @@ theorem far_images_clear (s : Crystal ℝ) (hc : CellOk s.cell) (hR : 0 ≤ s.sh
     exact far_aux _ _ _ (s.cell.b * Real.sin s.cell.angle) _ _ hR hK0' hK (mul_pos hb hsin)
       (mul_le_mul_of_nonneg_right (min_le_right _ _) (le_of_lt hsin)) hu L2
 
-/-! ### 3. pair tests are invariant under a common lattice translation and symmetric -/
+/-! ### 3. properly meeting is invariant under a common lattice translation -/
 
-theorem intersects_shift (sh : Shape ℝ) (c : Cell ℝ) (p q : Mat3 ℝ) (hp : C12.Affine p)
+theorem properlyMeets_shift (sh : Shape ℝ) (c : Cell ℝ) (p q : Mat3 ℝ) (hp : C12.Affine p)
     (hq : C12.Affine q) (n m n' m' : Int) :
-    (sh.transform (img c p n m)).intersects (sh.transform (img c q n' m')) =
-      (sh.transform (img c p 0 0)).intersects (sh.transform (img c q (n' - n) (m' - m))) := by
+    ProperlyMeets (sh.transform (img c p n m)) (sh.transform (img c q n' m')) ↔
+      ProperlyMeets (sh.transform (img c p 0 0)) (sh.transform (img c q (n' - n) (m' - m))) := by
   unfold img
   have e1 := translate_add c p hp 0 0 n m
   have e2 := translate_add c q hq (n' - n) (m' - m) n m
   rw [zero_add, zero_add] at e1
   rw [sub_add_cancel, sub_add_cancel] at e2
-  rw [e1, e2, shape_shift _ _ _ (translate_affine c p hp 0 0)
+  rw [e1, e2, properlyMeets_shiftM _ _ _ (translate_affine c p hp 0 0)
     (translate_affine c q hq (n' - n) (m' - m))]
 
+/-- the pair test is symmetric -/
 theorem intersects_symm (sh o : Shape ℝ) : sh.intersects o = o.intersects sh := by
   cases sh <;> cases o
   · exact C12.poly_symm _ _
@@ -287,19 +339,19 @@ theorem incell_clear (s : Crystal ℝ)
 /-! ### 4. the theorem -/
 
 /-- **C01**: whenever a hard-shape state reports a score (`checkIntersection = false`), no two
-distinct images of symmetry copies test positive, anywhere in the tiling: for all copies `i, j`
+distinct images of symmetry copies properly meet, anywhere in the tiling: for all copies `i, j`
 and all lattice vectors `(n,m)`, `(n',m')` with `(i,n,m) ≠ (j,n',m')`. -/
-theorem C01_no_flagged_pair (s : Crystal ℝ) (hc : CellOk s.cell) (hs : ShapeOk s.shape)
+theorem C01_no_proper_overlap (s : Crystal ℝ) (hc : CellOk s.cell) (hs : ShapeOk s.shape)
     (hR : 0 ≤ s.shape.enclosingRadius)
     (hrel : ∀ p ∈ s.relPositions, Placed p)
     (hscore : s.checkIntersection = false)
     (i j : Nat) (hi : i < s.relPositions.length) (hj : j < s.relPositions.length)
     (n m n' m' : Int) (hne : (i, n, m) ≠ (j, n', m')) :
-    (s.shape.transform (img s.cell (s.relPositions[i]) n m)).intersects
-      (s.shape.transform (img s.cell (s.relPositions[j]) n' m')) = false := by
+    ¬ ProperlyMeets (s.shape.transform (img s.cell (s.relPositions[i]) n m))
+      (s.shape.transform (img s.cell (s.relPositions[j]) n' m')) := by
   have hPi := hrel _ (List.getElem_mem hi)
   have hPj := hrel _ (List.getElem_mem hj)
-  rw [intersects_shift s.shape s.cell _ _ hPi.1 hPj.1 n m n' m']
+  rw [properlyMeets_shift s.shape s.cell _ _ hPi.1 hPj.1 n m n' m']
   have hne' : i ≠ j ∨ ¬ (n' - n = 0 ∧ m' - m = 0) := by
     by_cases hij : i = j
     · right
@@ -312,18 +364,22 @@ theorem C01_no_flagged_pair (s : Crystal ℝ) (hc : CellOk s.cell) (hs : ShapeOk
   generalize n' - n = N at hne' ⊢
   generalize m' - m = M at hne' ⊢
   obtain ⟨hA, hB⟩ := check_false_parts s hscore
+  intro hmeet
   by_cases hzero : N = 0 ∧ M = 0
   · obtain ⟨rfl, rfl⟩ := hzero
     have hij : i ≠ j := by
       rcases hne' with h | h
       · exact h
       · exact absurd ⟨rfl, rfl⟩ h
-    unfold img
-    rw [← isometry_eq_translate s.cell _ hPi.1, ← isometry_eq_translate s.cell _ hPj.1]
+    unfold img at hmeet
+    rw [← isometry_eq_translate s.cell _ hPi.1, ← isometry_eq_translate s.cell _ hPj.1] at hmeet
     rcases Nat.lt_or_gt_of_ne hij with h | h
-    · exact incell_clear s hA i j h hj
-    · rw [intersects_symm]
-      exact incell_clear s hA j i h hi
+    · have h1 := properlyMeets_detected _ _ hmeet
+      rw [incell_clear s hA i j h hj] at h1
+      exact Bool.false_ne_true h1
+    · have h1 := properlyMeets_detected _ _ ((properlyMeets_symm _ _).mp hmeet)
+      rw [incell_clear s hA j i h hi] at h1
+      exact Bool.false_ne_true h1
   · have hAi : C12.Affine (img s.cell (s.relPositions[i]) 0 0) ∧
         C12.Orthogonal (img s.cell (s.relPositions[i]) 0 0) :=
       ⟨translate_affine _ _ hPi.1 0 0, translate_orth _ _ hPi.2.1 0 0⟩
@@ -348,8 +404,12 @@ theorem C01_no_flagged_pair (s : Crystal ℝ) (hc : CellOk s.cell) (hs : ShapeOk
           ((s.cell.toCartesianTranslate (s.relPositions[i]) 0 0).position.y -
             (img s.cell (s.relPositions[j]) N M).position.y) ≤
           powi (s.shape.enclosingRadius * Generated.packedPrefilterFactor.eval noEnv) 2
-      · exact hB' hd
-      · apply prefilter_sound _ hs _ _ hAi hAj
+      · have h1 := properlyMeets_detected _ _ hmeet
+        have h2 : (s.shape.transform (img s.cell (s.relPositions[i]) 0 0)).intersects
+            (s.shape.transform (img s.cell (s.relPositions[j]) N M)) = false := hB' hd
+        rw [h2] at h1
+        exact Bool.false_ne_true h1
+      · refine prefilter_sound _ hs _ _ hAi hAj ?_ hmeet
         rw [not_le, powi_two, prefilterFactor_eval] at hd
         unfold dist2
         unfold normSq at hd
@@ -361,7 +421,7 @@ theorem C01_no_flagged_pair (s : Crystal ℝ) (hc : CellOk s.cell) (hs : ShapeOk
         rw [not_or, not_lt, not_lt] at hcon
         exact hin hcon
       exact prefilter_sound _ hs _ _ hAi hAj
-        (far_images_clear s hc hR _ _ hPi hPj N M hout)
+        (far_images_clear s hc hR _ _ hPi hPj N M hout) hmeet
 
 /-- a score is reported exactly when the check finds nothing -/
 theorem score_some_iff (s : Crystal ℝ) : (∃ v, s.scoreHard = some v) ↔ s.checkIntersection = false := by
@@ -383,22 +443,18 @@ theorem C01_discs (s : Crystal ℝ) (items : List (Atom2 ℝ)) (hshape : s.shape
   have hs : ShapeOk s.shape := by
     rw [hshape]
     exact fun a ha => le_of_lt (hpos a ha)
-  have hno := C01_no_flagged_pair s hc hs hR hrel hscore i j hi hj n m n' m' hne
+  have hno := C01_no_proper_overlap s hc hs hR hrel hscore i j hi hj n m n' m' hne
   rw [hshape] at hno
-  simp only [Shape.transform] at hno
-  have hyes : (Shape.mol (items.map (·.transform (img s.cell (s.relPositions[i]) n m)))).intersects
-      (Shape.mol (items.map (·.transform (img s.cell (s.relPositions[j]) n' m')))) = true := by
-    rw [C12.mol_iff]
-    refine ⟨a, ha, b, hb, ?_⟩
-    have hra : 0 < a.r := by
-      obtain ⟨a0, ha0, rfl⟩ := List.mem_map.mp ha
-      exact hpos a0 ha0
-    have hrb : 0 < b.r := by
-      obtain ⟨b0, hb0, rfl⟩ := List.mem_map.mp hb
-      exact hpos b0 hb0
-    rw [C12.atom_iff a b hra hrb]
-    exact ⟨px, py, h1, h2⟩
-  rw [hyes] at hno
-  exact absurd hno (by simp)
+  simp only [Shape.transform, ProperlyMeets] at hno
+  apply hno
+  refine ⟨a, ha, b, hb, ?_⟩
+  have hra : 0 < a.r := by
+    obtain ⟨a0, ha0, rfl⟩ := List.mem_map.mp ha
+    exact hpos a0 ha0
+  have hrb : 0 < b.r := by
+    obtain ⟨b0, hb0, rfl⟩ := List.mem_map.mp hb
+    exact hpos b0 hb0
+  rw [C12.atom_iff a b hra hrb]
+  exact ⟨px, py, h1, h2⟩
 
 end PV.Proofs.C01
